@@ -71,6 +71,16 @@ def run_table(res, prop, table, cells=None, titles=('S',)):
     formulas = [row[1] for row in table]
     r = native.call('schema', 'emit_each', formulas=formulas, cells=cells or [], titles=list(titles))
     obs = []
+    # PARAM: the side condition that turns one schema run into a statement about all operands (L-SUBST)
+    from . import param
+    n, problems = param.check()
+    po = Ob(f'{prop}.PARAM.translators_only_concatenate', 'K3', decisive=False, function='translators/*.py (every function)')
+    po.count = n
+    po.status = 'failed' if problems else 'discharged'
+    po.detail = ('; '.join(problems[:4]) if problems else
+                 f'{n} translator functions: a child translation is only interpolated, concatenated, joined, registered, '
+                 'returned or tested for truth - never indexed, sliced, compared or passed to another function')
+    res.add(po)
     for (name, formula, exp, note), code, err in zip(table, r['codes'], r['errors']):
         o = Ob(f'{prop}.{name}', 'KS', decisive=True, function='translators (real pipeline on a schema formula)')
         o.witness = {'kind': 'schema', 'formula': formula, 'expected': exp if isinstance(exp, str) else note,
